@@ -6,6 +6,7 @@ Theorems about DhtVerif/Model/Security.lean for every IPv4/IPv6 address
 -/
 import DhtVerif.Model.Security
 import DhtVerif.Lemmas.C17
+import DhtVerif.Props.SourceTrees2
 namespace Dht
 open C17
 
@@ -148,5 +149,20 @@ example : (31 : UInt8) &&& 0xf0 = 16 := by decide
 example : isLocalNetwork [172, 32, 0, 1] = false := by decide
 example : crcIP [1,2,3] 0 = none := by decide
 example : secureNodeId (List.replicate 20 0) [1,2,3] = none := by decide
+
+/-! ## T1 by translation: the exemption and the traversal's enforcement are the source's -/
+
+/-- `isLocalNetwork` in security.go (with the networks its `init` parses) IS the model's `isLocalNetwork`. -/
+theorem C17.isLocalNetwork_is_the_source (ip : List UInt8) :
+    Gen.treeSecurityInitLets = ilnInitExpected ∧
+    DExp.evalWith (ilnCond ip) boolRet Gen.treeIsLocalNetwork = some (isLocalNetwork ip) :=
+  SourceTrees.isLocalNetwork ip
+
+/-- `Server.TraversalNodeFilter` in server.go IS `traversalNodeFilter`, and unless `NoSecurity` a candidate with
+a known ID passes it only with an ID that `nodeIdSecure` accepts for its address. -/
+theorem C17.traversalNodeFilter_enforces_security (c : SrvCfg) (n : Cand) :
+    DExp.evalWith (tnfCond c n) (tnfRet c n) Gen.treeTraversalNodeFilter = some (traversalNodeFilter c n) ∧
+    (∀ id a, c.tbl.noSecurity = false → traversalNodeFilter c ⟨some id, a⟩ = true → nodeIdSecure id a.ip = some true) :=
+  ⟨SourceTrees.traversalNodeFilter c n, fun id a hs h => traversalNodeFilter_secure c id a hs h⟩
 
 end Dht
